@@ -9,7 +9,7 @@ from gen import bound_text, sides, wellformed_bound
 LEVEL = "proof"
 
 
-def run(chk):
+def _run_once(chk):
     chk.rule = ("inputs of 1-6 lines from {'', a, bc, é, x CR} with/without final EOL (never the empty input or a lone EOL), -z; plain bounds "
                 "lists of 1-3 bounds resolvable on the input (positive, negative, open, repeated, reordered), --no-join, -m; ascending positive "
                 "lists are additionally compared with the same list in which one index is spelled negatively (forces buffering); non-trivial = "
@@ -64,3 +64,9 @@ def run(chk):
         if a != b:
             chk.report_oracle("the one-line-at-a-time algorithm and the buffered algorithm disagree on equivalent requests",
                               {"case": x, "case_b": y, "line_at_a_time": a, "buffered": b})
+
+
+def run(chk):
+    # thorough = several independent rounds of the same generators (the PRNG keeps advancing), so that memory stays bounded
+    for _round in range(1 if chk.tier == "quick" else 6):
+        _run_once(chk)
